@@ -428,6 +428,43 @@ class ExecGen:
         blk([])
         self.tags.add("two-groups-one-block-scenario")
 
+    def scripted_late_begin_failed_child(self):
+        """a one-to-many transaction whose first child is begun in one block and whose second child CANNOT begin (its destination
+        refuses the source: c3:s1 blocks c1:s2) in a LATER block, before the deadline of the first: the group fails there and leaves
+        the timeout list of the deadline the FIRST child gave it; sometimes the failed child's failure receipt follows; the blocks
+        run past that deadline — nothing of the group may be listed as timed out, no status may be moved by the timeout step"""
+        r = self.rng
+        f = "c1:s2"
+        good = r.choice(["c2:s1", "c2:s3", "c4:s1"])
+        T = r.choice([4, 5, 6])
+        ch = []
+        for t in (good, "c3:s1"):
+            idx = self.next_req.get((f, t), 1)
+            self.next_req[(f, t)] = idx + 1
+            ch.append((t, idx))
+        g = {"from": f, "children": ch, "T": T, "begun": list(ch)}
+        self.groups.append(g)
+        grp = ",".join(f"{tt}={ii}" for tt, ii in ch)
+
+        def blk(txs):
+            self.height += 1
+            self.ops.append("block " + " | ".join(txs) if txs else "block")
+            self.observe()
+        for c in ch:
+            self.ids.append(ibtp_id(f, c[0], c[1]))
+        blk([f"ibtp ca1 {f} {ch[0][0]} {ch[0][1]} req {T} {grp} ok"])
+        gap = r.choice([1, 2, 3])
+        for _ in range(gap - 1):
+            blk([])
+        blk([f"ibtp ca1 {f} {ch[1][0]} {ch[1][1]} req {r.choice([T, T, T + 2])} {grp} ok"])
+        used = gap
+        if r.random() < 0.6 and used < T - 1:
+            blk([f"ibtp ca3 {f} {ch[1][0]} {ch[1][1]} fail 0 - ok"])
+            used += 1
+        for _ in range(T - used + 3):
+            blk([])
+        self.tags.add("late-begin-failed-child-scenario")
+
     def scripted_hub_reverse_pair(self):
         """hub world: traffic over a pair across the two BitXHubs AND over the reverse pair.  A request that was never accepted but
         carries a notice-shaped Extra field is a plain new request (there is nothing to be notified about); a notice for an accepted
@@ -497,6 +534,9 @@ class ExecGen:
         if self.focus == "group" and k < 0.2 and not self.hub:
             self.scripted_two_groups_one_block()
             nblocks = max(3, nblocks - 4)
+        if self.focus in ("group", "mixed") and 0.3 < k < 0.42 and not self.hub:
+            self.scripted_late_begin_failed_child()
+            nblocks = max(2, nblocks - 6)
         if self.focus in ("single", "mixed") and k > 0.9:
             self.scripted_receipt_with_group()
             nblocks = max(nblocks, 7)
